@@ -117,11 +117,18 @@ def run(V, universes, semantics=True):
                     ops.append({"op": "newdb"})
                     ops += setup
                     ops.append({"op": "cycles"})
-                ctx[n] = (case, files, len(setup))
+                # histories with an EARLIER query: the report is asked on the empty index, the files then arrive on the
+                # workspace scan's path (no clean-up); and asked after the first file, the rest arriving as edits
+                hist_at = []
+                ops += [{"op": "newdb"}, {"op": "cycles"}] + [dict(o, fresh=True) for o in setup] + [{"op": "cycles"}]
+                hist_at.append(len(ops) - 1)
+                ops += [{"op": "newdb"}] + setup[:1] + [{"op": "cycles"}] + setup[1:] + [{"op": "cycles"}]
+                hist_at.append(len(ops) - 1)
+                ctx[n] = (case, files, len(setup), hist_at)
                 yield {"id": n, "ops": ops}
 
         for res in C.run_harness(gen()):
-            case, files, ns = ctx.pop(res["id"])
+            case, files, ns, hist_at = ctx.pop(res["id"])
             replayed += 1
             r = res["res"]
             texts = {UNI.paths[s]: files[s].text for s in case["order"]}
@@ -204,6 +211,14 @@ def run(V, universes, semantics=True):
                         V.classify(["cycle_hash_order_roots"], ex, "which cycle is reported / on which fixture varies between runs")
                     else:
                         V.violation(ex, "cycle reports vary between runs (not predicted by the model)")
+                # (e) an earlier query must not be remembered: same files, same report
+                for hk, at in zip(("asked on the empty index, files then scanned", "asked after the first file, the rest then edited in"), hist_at):
+                    V.count()
+                    h = norm(r[at])
+                    if key(h) not in outs and not (len({key(o) for o in model_outs}) > 1 and h in model_outs):
+                        V.violation(dict(ex_base, history=hk, reported_after_history=sorted(map(str, h)) if not isinstance(h, tuple) else h,
+                                         reported_without=sorted(map(str, main)) if not isinstance(main, tuple) else main),
+                                    "the cycle report depends on an earlier query (%s): a remembered result is served for a changed index" % hk)
                 groups.setdefault(shape_k, []).append((case["order"], key(main), texts, len({key(o) for o in model_outs}) > 1 or True))
             # ---- scope mismatches per file
             j = ns + 1
